@@ -16,6 +16,7 @@ func init() {
 		func(a *An) {
 			a.c19Growth()
 			a.c19More()
+			a.addKeysSearchesAll("B.growth")
 			a.c18Resend()
 		})
 }
